@@ -196,18 +196,19 @@ func (bv *SemVerRange) ToString(b io.Writer, s px.FormatContext, g px.RDetect) {
 	vr := bv.rng
 	switch f.FormatChar() {
 	case 'p':
-		utils.WriteString(b, `SemVerRange(`)
+		bld := bytes.NewBufferString(`SemVerRange(`)
 		if f.IsAlt() {
-			utils.PuppetQuote(b, vr.NormalizedString())
+			utils.PuppetQuote(bld, vr.NormalizedString())
 		} else {
-			utils.PuppetQuote(b, vr.String())
+			utils.PuppetQuote(bld, vr.String())
 		}
-		utils.WriteString(b, `)`)
+		bld.WriteByte(')')
+		f.ApplyStringFlags(b, bld.String(), false)
 	case 's':
 		if f.IsAlt() {
-			vr.ToNormalizedString(b)
+			f.ApplyStringFlags(b, vr.NormalizedString(), false)
 		} else {
-			vr.ToString(b)
+			f.ApplyStringFlags(b, vr.String(), false)
 		}
 	default:
 		panic(s.UnsupportedFormat(bv.PType(), `ps`, f))
